@@ -4,6 +4,7 @@ import ExoVerif.Model.GenesisAssets
 import ExoVerif.Model.GenesisOperator
 import ExoVerif.Model.GenesisMods
 import ExoVerif.Model.GenesisValSet
+import ExoVerif.Model.GenesisDue
 /- driver for the C18 correspondence: the harness describes the cross-module core of the real state before the
    export (`gen.und`, `gen.q`, `gen.cur`, `gen.prev`, `gen.rev`, `gen.val`), `gen.roundtrip` prints what the model says the
    re-imported chain holds (undelegations with hold counts, dogfood queues, reverse key lookups, validator set).
@@ -21,7 +22,10 @@ import ExoVerif.Model.GenesisValSet
    row's share stands for (`missing` = ErrNoOperatorAssetKey).
    validator set: `gen.jl` the jail status of one stored validator (IsValidatorJailed), `gen.tp` LastTotalPower (stored
    validators = `gen.val`, reverse lookups = `gen.rev`); `gen.valset` prints what initVals (exportVals s) stores, its
-   LastTotalPower, the validators returned to the consensus engine and the jail status per stored validator. -/
+   LastTotalPower, the validators returned to the consensus engine and the jail status per stored validator.
+   import height: `gen.h` the height InitChain runs InitGenesis at (the export height = last committed height + 1);
+   `gen.roundtrip` prints `import-failed` when SetUndelegationRecords rejects an exported record at that height
+   (x/delegation InitGenesis panics), Model/GenesisDue.lean. -/
 namespace ExoVerif.Driver.Genesis
 open ExoVerif.Genesis ExoVerif.Driver
 
@@ -124,13 +128,15 @@ structure St where
   delegs : List DelegRow := []
   jl : List (String × Bool) := []
   tp : Int := 0
+  h : Int := 0
 
 def step (st : St) (w : List String) : St × String :=
   let s := st.core
   let a := st.assets
   let o := st.operator
   match w with
-  | ["gen.reset"] => (⟨empty, emptyAssets, emptyOperator, emptyMods, [], [], 0⟩, "ok")
+  | ["gen.reset"] => (⟨empty, emptyAssets, emptyOperator, emptyMods, [], [], 0, 0⟩, "ok")
+  | ["gen.h", n] => ({ st with h := parseInt! n }, "ok")
   | ["gen.jl", cons, f] => ({ st with jl := st.jl ++ [(cons, f == "1")] }, "ok")
   | ["gen.tp", p] => ({ st with tp := parseInt! p }, "ok")
   | ["gen.valset"] => (st, valsetRoundtrip s st.jl st.tp)
@@ -143,7 +149,10 @@ def step (st : St) (w : List String) : St × String :=
   | ["gen.prev", op, cons] => ({ st with core := { s with prevKeys := s.prevKeys ++ [(op, cons)] } }, "ok")
   | ["gen.val", cons, pw] => ({ st with core := { s with vals := s.vals ++ [(cons, parseInt! pw)] } }, "ok")
   | ["gen.rev", cons, op] => ({ st with core := { s with reverse := s.reverse ++ [(cons, op)] } }, "ok")
-  | ["gen.roundtrip"] => (st, showCore (roundtrip codePrefixes 0 0 s))
+  | ["gen.roundtrip"] =>
+    (st, match roundtripAt codePrefixes codeDueCfg 0 st.h s with
+         | none => "import-failed"
+         | some s' => showCore s')
   | ["gen.ap", gw, topic] => ({ st with assets := { a with params := ⟨gw, topic⟩ } }, "ok")
   | ["gen.ac", k, lz, nm, al, rest] =>
     ({ st with assets := { a with chains := a.chains ++ [(k, ⟨parseNat! lz, nameOf nm, parseNat! al, rest⟩)] } }, "ok")
@@ -168,6 +177,6 @@ def step (st : St) (w : List String) : St × String :=
   | ["gen.params"] => (st, paramsRoundtrip st.mods)
   | _ => (st, "bad-op")
 
-def main : IO Unit := runDriver (⟨empty, emptyAssets, emptyOperator, emptyMods, [], [], 0⟩ : St) step
+def main : IO Unit := runDriver (⟨empty, emptyAssets, emptyOperator, emptyMods, [], [], 0, 0⟩ : St) step
 
 end ExoVerif.Driver.Genesis
